@@ -87,3 +87,33 @@ Proof.
       intros h' X; unfold set_h; simpl; upds; simpl; auto;
       try (destruct (Nat.eqb _ _); simpl; auto).
 Qed.
+
+Lemma irun_persist ls : forall s s', SInv s -> irun s ls = Some s' ->
+  nexth s' = nexth s /\ (cctx s = true -> cctx s' = true) /\ (mainp s <> RNone -> mainp s' <> RNone)
+  /\ (forall h, pendh (hs s h) = false -> pendh (hs s' h) = false)
+  /\ (forall h, follows (hs s h) -> follows (hs s' h)).
+Proof.
+  induction ls as [|l ls IH]; intros s s' I H; simpl in H.
+  - inversion H; subst. split; [reflexivity|]. split; [auto|]. split; [auto|]. split; auto.
+  - destruct (internal l) eqn:Hi; [|discriminate]. destruct (step s l) as [[s1 e1]|] eqn:E; [|discriminate].
+    destruct (step_persist _ _ _ _ I Hi E) as (A1 & A2 & A3 & A4 & A5).
+    destruct (IH s1 s' (step_sinv _ _ _ _ I E) H) as (B1 & B2 & B3 & B4 & B5).
+    split; [congruence|]. split; [auto|]. split; [auto|]. split; auto.
+Qed.
+
+(** C10_self_close with the premise at the START of the internal run *)
+Theorem self_close_from_start f16 ls0 ls K s' :
+  let s := run (rinit true true true f16) ls0 in
+  tbounded K s -> irun s ls = Some s' -> mainp s <> RNone ->
+  (0 < nexth s /\ all_past_done s) \/ (cctx s = true /\ all_follow_ctx s) ->
+  length ls <= mu K s /\ (~ can_move s' -> exists ok, mainp s' = RDone ok).
+Proof.
+  intros s B H N0 Hyp.
+  destruct (self_close_terminates f16 ls0 ls K s' B H) as [L T]. split; [exact L|].
+  pose proof (reachable_sinv true true true f16 ls0) as I. fold s in I.
+  destruct (irun_persist ls s s' I H) as (A1 & A2 & A3 & A4 & A5).
+  intros NM. apply T; auto.
+  destruct Hyp as [[Hn A]|[C F]].
+  - left. rewrite A1. split; [exact Hn|]. intros h Hh. rewrite A1 in Hh. apply A4. apply A. exact Hh.
+  - right. split; [auto|]. intros h Hh. rewrite A1 in Hh. apply (A5 h). apply F. exact Hh.
+Qed.
